@@ -905,7 +905,7 @@ func init() {
 			"non-trivial = mutation at a position > 0 of a composite leaf of length >= 2; distinct = (tree, mutation site).",
 		Assumptions: []string{"composite leaves hold primitives or pointers to primitives (nested composites such as slices of slices are outside the statement's leaf grammar)", "NaN leaves are not generated (NaN differs from itself)"},
 		Floors: func(string) map[string]int64 {
-			return map[string]int64{"equal-pairs": 3000, "mutants": 30000, "mutants.composite-beyond-first-position": 2000, "mutants.kind": 1000, "mutants.operator": 500, "mutants.swap[]": 500, "mutants.keyword-case": 500, "mutants.leaf-case": 500, "mutants.slice-ptr[]": 300}
+			return map[string]int64{"equal-pairs": 3000, "aliased-and-deep-embedded": 12, "questions.with-unrelated-comparisons-in-between": 50000, "cases.with-bystander-goroutines": 300, "mutants": 30000, "mutants.composite-beyond-first-position": 2000, "mutants.kind": 1000, "mutants.operator": 500, "mutants.swap[]": 500, "mutants.keyword-case": 500, "mutants.leaf-case": 500, "mutants.slice-ptr[]": 300}
 		},
 	})
 }
